@@ -525,3 +525,17 @@ bool cmi_event_remove_waiter(const uint64_t key, const struct cmb_process *pp)
 
     return false;
 }
+
+/*
+ * Deregister a waiting process that was woken up by something else than the
+ * event: take it off the waiter list if the event is still scheduled, and
+ * cancel its wakeup call if the event already happened and the call is on its
+ * way.
+ */
+void cmi_event_forget_waiter(const uint64_t key, struct cmb_process *pp)
+{
+    cmb_assert_release(event_queue != NULL);
+
+    (void)cmi_event_remove_waiter(key, pp);
+    (void)cmb_event_pattern_cancel(wakeup_event_event, pp, CMB_ANY_OBJECT);
+}
